@@ -11,6 +11,7 @@ Tie        : generated programs (1..6 concurrent callers, several once controls,
              once.init.end with state=2, later calls neither yield nor CAS, counters/flags, verdict DONE)."""
 import os, json, re
 import vlib, trace
+from props import c08c14_steps as steps
 
 VF = ["Once/OnceModel.v", "Once/OnceProofs.v"]
 POINTS = ["once.read", "once.cas", "once.done", "once.wait.read"]
@@ -463,6 +464,8 @@ def run(ctx):
     exe, drv = build(ctx)
     n = 90 if not ctx.thorough else 2500
     cases = load_corpus() + gen_cases(ctx, n)
+    struct_bad = steps.check(steps.ONCE_TABLE)
+    ctx.cov["step_table"] = {"functions": sorted(steps.ONCE_TABLE), "unit": "src/" + steps.UNIT, "mismatches": struct_bad}
     results = run_until_failure(ctx, exe, drv, cases)
     hist, spins, dist, verd, st, callers = summarize(results)
     bad_oracle = [o for o in results if o["oracle"]]
@@ -513,6 +516,21 @@ def run(ctx):
                 ", ".join(missing), " once.wait.spin" if not spins else "", " later call" if not st["later_calls"] else "",
                 " waiting call" if not st["waited_calls"] else ""),
                 {"theorem_or_correspondence": "coverage of the POINT ids of the once routines", "histogram": hist}, found=False)
+    if struct_bad and not bad_oracle:
+        hit = None
+        if not bad_model:           # (the model-disagreement branch above has searched already)
+            hit = search_oracle_failure(ctx, exe, drv, results[len(results) // 2]["case"], 300 if not ctx.thorough else 1500)
+        if hit:
+            ctx.violation("oracle", hit["oracle"], {"case": hit["case"]["text"], "observed": hit["oracle"],
+                                                    "step_table_mismatch": struct_bad, "verdict": hit["res"]["verdict"],
+                                                    "level": "library",
+                                                    "trace_tail": hit["res"]["trace_text"].split("\n")[-25:]}, found=True)
+        elif not [v for v in ctx.violations if v["found"]]:
+            ctx.violation("step-table", "the source no longer has exactly the steps of the model: " + " | ".join(struct_bad),
+                          {"theorem_or_correspondence": "source step table of myth_once_body / myth_once_wait_until / myth_once_try_set (tools/props/c08c14_steps.py) <-> model step function",
+                           "observed": struct_bad,
+                           "expected": "the atoms listed in c08c14_steps.ONCE_TABLE, in this order, and no other protocol-relevant statement"},
+                          found=False)
     if broken:
         ctx.violation("proof", "theorem(s) no longer check: " + ", ".join(broken),
                       {"theorem_or_correspondence": ", ".join(broken), "log": getattr(ctx, "proof_log", log[-3000:])}, found=False)
